@@ -265,6 +265,26 @@ CLAIMED.update({
     ),
 })
 
+CLAIMED.update({
+    'C07': (
+        'proxy symbolic execution (bvx/z3) of Key.sign / Key.verify / CHECK_SIGNATURE with the curve primitives replaced by ideal-scheme stand-ins (plumbing only)',
+        'Bounded symbolic model checking of the data flow around the primitives: secret (32 bytes), message (bytes, opaque hex, real hex text with/without 0x) and every primitive output are symbolic; '
+        'asserted: signing succeeds for the 4 curves in specific and generic form, the primitive receives the prescribed message form and key, the encoded signature is exactly its output under the expected '
+        'prefix, verification (also via the exported public key and CHECK_SIGNATURE) accepts it and rejects any other message / signature / key / curve. That the primitives are cryptographically correct and '
+        'that an independent implementation accepts the signature is OUTSIDE the claim (not encodable).',
+        'Plumbing only: libsodium, coincurve, fastecdsa, py_ecc are ideal stand-ins; messages <= 3 bytes (quick).',
+        'DESIGN.md C07',
+    ),
+    'C23': (
+        'proxy symbolic execution (bvx/z3) of OperationGroup.sign / hash / binary_payload with ideal-scheme primitive stand-ins and arbitrary symbolic forged bytes',
+        'Bounded symbolic model checking: for every operation kind of validation_passes, 4 key curves, symbolic secret, chain id and forged bytes: the signing primitive receives 0x03 + forged (0x02 + chain id + '
+        'forged for consensus kinds) in the form its scheme prescribes, the signature field is its output (sig / BLsig), it verifies over those bytes, and hash() is base58 "o" of Blake2b-256(forged + raw '
+        'signature); mixed validation passes and consensus operations without a chain id are refused. Cryptographic validity of the primitives is outside the claim.',
+        'Forged bytes are arbitrary symbolic bytes (1..3); primitives are ideal stand-ins.',
+        'DESIGN.md C23',
+    ),
+})
+
 NOT_APPLICABLE = {
     'C18': 'Parser is a PLY regex lexer + LALR tables + json; every input is concrete before the code under test runs, '
            'so a solver has nothing to decide (CrossHair regex model also unsound here). See DESIGN.md section 6.',
